@@ -62,7 +62,34 @@ fn gen_request(r: &mut Rng, budget: usize, seq_no: usize) -> HostileReq {
         _ => Some(r.usize_below(1400)),
     };
     if let Some(n) = bloat {
-        spec.extra.push((2000, vec![0x62; n]));
+        if r.bool() {
+            spec.extra.push((2000, vec![0x62; n]));
+        } else {
+            // the same volume as text in options the handler itself reads (path, query) or may read:
+            // ASCII, multi-byte characters at every alignment, invalid UTF-8
+            let unit: &[u8] = match r.below(6) {
+                0 => b"a",
+                1 => "\u{e9}".as_bytes(),
+                2 => "\u{20ac}".as_bytes(),
+                3 => "\u{1f601}".as_bytes(),
+                4 => b"\xff",
+                _ => b"/",
+            };
+            let mut text: Vec<u8> = vec![b'p'; r.usize_below(4)];
+            while text.len() + unit.len() <= n {
+                text.extend_from_slice(unit);
+            }
+            let number = *r.pick(&[11u16, 11, 11, 15, 3, 8, 35]);
+            if r.chance(1, 3) && text.len() > 300 {
+                // split into two long values
+                let cut = 256 + r.usize_below(text.len() - 256);
+                let cut = (0..=cut).rev().find(|c| std::str::from_utf8(&text[..*c]).is_ok() || unit == b"\xff").unwrap_or(0);
+                spec.extra.push((number, text[..cut].to_vec()));
+                spec.extra.push((number, text[cut..].to_vec()));
+            } else {
+                spec.extra.push((number, text));
+            }
+        }
     }
     // well-formed size announcements (RFC 7959 section 4) and other options a server might act on
     if r.chance(1, 5) {
@@ -131,7 +158,9 @@ fn pick_budget(r: &mut Rng, level: u32) -> usize {
 
 #[cfg(has_block_hook)]
 fn peek_upload_len(server: &Server, req: &CoapRequest<CEp>) -> Option<usize> {
-    server.handler.verif_peek(req).and_then(|x| x.0)
+    // (the hook derives the state key like the entry points do: if that panics, the entry point
+    // called next panics inside its own guard and is reported there)
+    crate::panicwatch::guard(|| server.handler.verif_peek(req).and_then(|x| x.0)).ok().flatten()
 }
 
 #[cfg(not(has_block_hook))]
